@@ -62,6 +62,9 @@ type Result struct {
 	MaxDepth     int                        `json:"max_depth"`
 	Terms        int                        `json:"terms"`
 	LoadError    string                     `json:"load_error,omitempty"`
+	UnknownNotes []string                   `json:"unknown_notes,omitempty"`
+	FreshRetries int                        `json:"fresh_retries"`
+	FreshDecided int                        `json:"fresh_decided"`
 }
 
 func main() {
@@ -197,6 +200,8 @@ func main() {
 	sort.Strings(res.Funcs)
 	res.Samples = e.Samples
 	res.Truncated = e.Truncated
+	res.UnknownNotes = e.UnknownNotes
+	res.FreshRetries, res.FreshDecided = e.FreshRetries, e.FreshDecided
 	res.SolverErrors = solver.Errors
 	if len(res.SolverErrors) > 10 {
 		res.SolverErrors = res.SolverErrors[:10]
